@@ -137,7 +137,19 @@ def run(ctx):
             Xw[a2:a2 + 100] = np.asarray([[rng.gauss(0, 0.3) for _ in range(p_)] for _ in range(100)])
             Xw[a2:a2 + 100, 0] += 4.0
             for t_ in (a2, a2 + 1, a2 + 98, a2 + 99):
-                Xw[t_, 1] += 7.5
+                Xw[t_, 1] += 10.0
+        if it == 0:
+            # a LADDER of ten 100-row anomalies (strong in column 0) whose column 1 carries a constant, noise-free shift with saving 0.8% .. 8% ABOVE its per-component
+            # penalty: column 1 belongs to each of them; any estimate from fewer rows than the reported interval drops some
+            p_ = 5
+            n_ = 10 * 160 + 60
+            Xw = np.asarray([[rng.gauss(0, 1) for _ in range(p_)] for _ in range(n_)])
+            beta_ = 2.0 * 2.0 * math.log(p_)
+            for k_ in range(10):
+                a3 = 40 + 160 * k_
+                Xw[a3:a3 + 100] = np.asarray([[rng.gauss(0, 0.3) for _ in range(p_)] for _ in range(100)])
+                Xw[a3:a3 + 100, 0] += 4.0
+                Xw[a3:a3 + 100, 1] = math.sqrt(beta_ * (1.0 + 0.008 * (k_ + 1)) / 100.0)
         if it == 1:
             # more than 127 anomalies in one series: a spike every 20 rows of a 2900-row series
             n_ = 2900
